@@ -62,6 +62,9 @@ def boundaries(img):
             bs.add(eh["e_shoff"] + i * eh["e_shentsize"]); bs.add(eh["e_shoff"] + i * eh["e_shentsize"] + elfspec.SHSIZE[cls])
         for i in range(eh["e_phnum"] + 1):
             bs.add(eh["e_phoff"] + i * eh["e_phentsize"])
+            # cuts inside a program header record (after p_filesz: a half-read segment header)
+            for inside in (21, 25, 29, 41, 45, 53):
+                bs.add(eh["e_phoff"] + i * eh["e_phentsize"] + inside)
         for s in d["sections"]:
             bs |= {s["sh_offset"], s["sh_offset"] + s["sh_size"]}
     out = set()
@@ -83,6 +86,9 @@ def gen_cases(rng, tier):
     for i in range(n):
         cls, enc = CFGS[i % 4]
         imgs.append((f"g{i}", elfspec.encode(elfspec.random_model(rng, cls, enc, max_data=40))))
+    for i in range(4 if tier == "quick" else 16):
+        cls, enc = CFGS[i % 4]
+        imgs.append((f"t{i}", elfspec.encode(elfspec.random_model(rng, cls, enc, nseg=rng.choice([1, 2, 3]), max_data=40, pht_last=True))))
     for f, b in examples(3000 if tier == "quick" else 12000):
         if elfspec.wellformed(b):
             imgs.append((f, b))
